@@ -59,8 +59,7 @@ def run_jobs(jobs):
 
 def judge(d, traces, chunk=150):
     """TLC (EngineObsTrace) over all traces.  Returns (viols: {tid: [(l, clause)]}, states, transitions)."""
-    for f in ('EngineProps.tla', 'EngineObsTrace.tla'):
-        shutil.copy(os.path.join(common.SPEC, 'engine', f), d)
+    common.put_spec(d, *[os.path.join('engine', f_) for f_ in ('EngineProps.tla', 'EngineObsTrace.tla')])
     nch = (len(traces) + chunk - 1) // chunk
 
     def one(k):
